@@ -84,6 +84,12 @@ def edit(path, case, rng_seed):
         else:
             cur.execute("delete from truth_ephemerides where julian_date = ? and agent_id = ?", (jd, agent_id))
         removed = (agent_id, k, cur.rowcount)
+    if case.get("dup_obs"):
+        # the same observation stored twice (duplicate rows): the library documents that it drops the copy
+        cols = [r[1] for r in cur.execute("pragma table_info(observations)") if r[1] != "id"]
+        ids = [r[0] for r in cur.execute("select id from observations")]
+        for oid in ids[:: max(1, len(ids) // 3)][:4]:
+            cur.execute(f"insert into observations ({', '.join(cols)}) select {', '.join(cols)} from observations where id = ?", (oid,))  # noqa: S608
     con.commit()
     con.close()
     return removed
@@ -119,7 +125,7 @@ def gen_case(rng):
     elif edit_kind.startswith("missing_epoch"):
         gap = ["epoch", rng.randrange(1, steps + 1)]
     return {"kind": "c19", "net": net, "steps": steps, "edit": edit_kind, "imported": imported, "extra_agents": extra, "gap": gap,
-            "imported_obs": rng.random() < 0.6, "edit_seed": rng.randrange(1 << 30)}
+            "imported_obs": (imp_obs := rng.random() < 0.6), "dup_obs": imp_obs and rng.random() < 0.35, "edit_seed": rng.randrange(1 << 30)}
 
 
 def eval_case(ctx, case):
